@@ -196,6 +196,13 @@ func (r *stepRig) run(c *stepCase, code []uint8) stepOutcome {
 	if r.nilIO {
 		r.cpu.IO = nil
 	}
+	// Step does not look at break points (Run does): nil, empty or populated must make no difference
+	switch c.MemSeed >> 9 & 3 {
+	case 1:
+		r.cpu.BreakPoints = map[uint16]struct{}{}
+	case 2:
+		r.cpu.BreakPoints = map[uint16]struct{}{c.St.PC: {}, c.St.PC + 1: {}, c.St.PC + 2: {}, c.St.PC + 3: {}, 0x0038: {}, 0x0066: {}}
+	}
 	defer func() { r.prev = r.cpu }()
 	var mm z80.MapMemory
 	switch r.memKind {
